@@ -38,20 +38,30 @@ var props = []PropSpec{
 	},
 	{
 		ID: "C15", Pkg: "./accum", Scenario: "C15", Level: "exploration",
-		Quick:    Tier{Runs: 4000, WallS: 60},
-		Thorough: Tier{Runs: 150000, WallS: 600},
-		Rule: "one run = one generated CAR (0..6 blocks with 0..N children of every kind, more children than the preallocation knob, trailing non-block objects, section lengths 1..3 varint bytes, 1..2 roots) traversed by the real carreader over a stream with legal short reads and the real ObjectAccumulator.Run (reader goroutine, queue, flusher goroutine, pool, WaitGroup) with an ignore-set, SetSkip, and a consumer callback that is instantaneous / yields / sleeps, under one seeded schedule; 20% of runs inject a read error at a tape-chosen byte; distinct = distinct (layout digest, schedule signature, fault multiset); non-trivial = a context switch or fired fault",
-		Real: []string{"accum/block.go", "carreader/reader.go"},
-		Stub: []string{"objects are synthetic (kind byte + random payload), not ledger nodes; the file is an in-memory stream reader"},
+		Quick:       Tier{Runs: 4000, WallS: 60},
+		Thorough:    Tier{Runs: 150000, WallS: 600},
+		Rule:        "one run = one generated CAR (0..6 blocks with 0..N children of every kind, more children than the preallocation knob, trailing non-block objects, section lengths 1..3 varint bytes, 1..2 roots) traversed by the real carreader over a stream with legal short reads and the real ObjectAccumulator.Run (reader goroutine, queue, flusher goroutine, pool, WaitGroup) with an ignore-set, SetSkip, and a consumer callback that is instantaneous / yields / sleeps, under one seeded schedule; 20% of runs inject a read error at a tape-chosen byte; distinct = distinct (layout digest, schedule signature, fault multiset); non-trivial = a context switch or fired fault",
+		Real:        []string{"accum/block.go", "carreader/reader.go"},
+		Stub:        []string{"objects are synthetic (kind byte + random payload), not ledger nodes; the file is an in-memory stream reader"},
 		Assumptions: commonAssumptions,
 	},
 	{
 		ID: "C14", Pkg: "./accum", Scenario: "C14", Level: "fault_enumeration",
-		Quick:    Tier{Runs: 3000, WallS: 60},
-		Thorough: Tier{Runs: 120000, WallS: 600},
-		Rule: "one run = one payload (0..200 KiB) split into 1..60 reference-encoded frames with next-link fan-out 1..10 in the schema comment's layout, CRC64 / legacy FNV / no checksum, with or without total; the real LoadDataFromDataFrames is run fault-free and then once per (frame, fault) for every frame of the chain and every fault kind {drop, duplicate, bit flip, swap with the same-index frame of a second payload, index altered, next-link cycle}, plus the same payload as transaction metadata through accum.ObjectsToTransactionsAndMetadata with permuted storage order, a dropped frame and a flipped bit; evaluations = runs (each run enumerates its chain's whole fault set; the number of fault cases is probe c14.cases); distinct = distinct (chain shape digest, fault multiset); non-trivial = at least one fault case applied",
-		Real: []string{"tooling/data-frames.go", "ipld/ipldbindcode/methods.go (VerifyHash, frame accessors)", "iplddecoders (DecodeDataFrame, DecodeTransaction)", "accum/tx.go"},
-		Stub: []string{"frame store = in-memory map behind the dataFrameGetter seam"},
+		Quick:       Tier{Runs: 3000, WallS: 60},
+		Thorough:    Tier{Runs: 120000, WallS: 600},
+		Rule:        "one run = one payload (0..200 KiB) split into 1..60 reference-encoded frames with next-link fan-out 1..10 in the schema comment's layout, CRC64 / legacy FNV / no checksum, with or without total; the real LoadDataFromDataFrames is run fault-free and then once per (frame, fault) for every frame of the chain and every fault kind {drop, duplicate, bit flip, swap with the same-index frame of a second payload, index altered, next-link cycle}, plus the same payload as transaction metadata through accum.ObjectsToTransactionsAndMetadata with permuted storage order, a dropped frame and a flipped bit; evaluations = runs (each run enumerates its chain's whole fault set; the number of fault cases is probe c14.cases); distinct = distinct (chain shape digest, fault multiset); non-trivial = at least one fault case applied",
+		Real:        []string{"tooling/data-frames.go", "ipld/ipldbindcode/methods.go (VerifyHash, frame accessors)", "iplddecoders (DecodeDataFrame, DecodeTransaction)", "accum/tx.go"},
+		Stub:        []string{"frame store = in-memory map behind the dataFrameGetter seam"},
 		Assumptions: []string{"sequential code: no interleaving is explored; the claim rests on the fetch seam and the enumerated single-fault set", "a CRC64/FNV collision between the original and a faulted payload is treated as impossible"},
+	},
+	{
+		ID: "C04", Pkg: "./compactindexsized", Scenario: "C04", Level: "exploration",
+		More: []Part{{Pkg: "./deprecated/compactindex", Scenario: "C04L8", Share: 0.2}, {Pkg: "./deprecated/compactindex36", Scenario: "C04L36", Share: 0.2}},
+		Quick:       Tier{Runs: 1200, WallS: 90},
+		Thorough:    Tier{Runs: 30000, WallS: 900},
+		Rule:        "one run = one key set (1..400 keys quick, up to 60 000 thorough; key lengths 0..65 535; value sizes 1..255; declared count 1x..10x or below the real count; adversarial keys sharing a bucket; metadata) built by the real Builder on the simulated disk (Insert, Seal, spill files), read back through a file / mmap / ReaderAt showing every legal variant of the ReaderAt contract and compared key by key with an in-memory map; twice for byte-identity, once in a permuted insertion order; error modes: duplicate key, oversize key, value size 0/256; 30% of clean-input runs inject one or two reported disk faults (write error, short write, open, seek, read, sync, close, short read) and apply 'nil from every call => full oracle'; distinct = distinct (key-set digest, configuration, fault multiset); every run is non-trivial (it builds and queries an index)",
+		Real:        []string{"compactindexsized/build.go", "compactindexsized/query.go", "compactindexsized/compactindex.go", "indexmeta"},
+		Stub:        []string{"dsim/simos wraps real files (fault layer); fallocate goes to the real fd"},
+		Assumptions: []string{"the key-set quantifier itself is covered by seeded generation only (no exhaustive small-scope enumeration)", "only reported disk faults are injected: no silently lost writes"},
 	},
 }
